@@ -22,24 +22,24 @@ import (
 // Prog is the resolved program: type-checked packages, SSA, call graph and the
 // roles discovered from the public API (never from private helper names).
 type Prog struct {
-	Sizes   types.Sizes // of the target architecture the tree was loaded for
-	Root    string
-	ModPath string
-	Fset    *token.FileSet
-	Pkgs    []*packages.Package // repo packages only, sorted by path
-	ByPath  map[string]*packages.Package
-	SSA     *ssa.Program
-	CG      *callgraph.Graph
-	Ecos    []*Eco
-	EcoBy   map[string]*Eco // by package name
-	Vers    *packages.Package
-	Cmd     *packages.Package
-	AllFns  map[*ssa.Function]bool // every function incl. anonymous, instances
-	SrcFns  []*ssa.Function        // repo source functions (non-instance), sorted
-	rx      *regexTable
-	aeStages map[*ssa.Function]*stageInfo
-	aeShared *aeShared
-	aeResults map[string]*aeEcoResult
+	Sizes         types.Sizes // of the target architecture the tree was loaded for
+	Root          string
+	ModPath       string
+	Fset          *token.FileSet
+	Pkgs          []*packages.Package // repo packages only, sorted by path
+	ByPath        map[string]*packages.Package
+	SSA           *ssa.Program
+	CG            *callgraph.Graph
+	Ecos          []*Eco
+	EcoBy         map[string]*Eco // by package name
+	Vers          *packages.Package
+	Cmd           *packages.Package
+	AllFns        map[*ssa.Function]bool // every function incl. anonymous, instances
+	SrcFns        []*ssa.Function        // repo source functions (non-instance), sorted
+	rx            *regexTable
+	aeStages      map[*ssa.Function]*stageInfo
+	aeShared      *aeShared
+	aeResults     map[string]*aeEcoResult
 	keyFieldCache map[string]map[string]bool
 	ecoFieldCache map[string]*ecoFields
 }
